@@ -74,9 +74,15 @@ def field_index(prog, adt, name):
 
 def struct_from(prog, adt, ty=None, **kw):
     a = prog.adts[adt]
-    names = [f['name'] for f in a['variants'][0]['fields']]
-    assert set(names) == set(kw), (names, sorted(kw))
-    return Struct(ty or adt, [kw[n] for n in names])
+    fields = a['variants'][0]['fields']
+    names = [f['name'] for f in fields]
+    missing = sorted(set(kw) - set(names))
+    if missing:
+        from .mai import Undecided
+        raise Undecided('the analysed crate has no field %s in %s (fields: %s): the abstract states of this analysis do not fit it'
+                        % (missing, adt, names))
+    # a field this analysis does not know is an opaque value of its type (sound: nothing is assumed about it)
+    return Struct(ty or adt, [kw[f['name']] if f['name'] in kw else Tok('field:' + f['name'], f['ty']) for f in fields])
 
 
 def field_bits(prog, adt, name):
